@@ -894,10 +894,12 @@ class BlobStorage(BlobStorageMixin):
                     data, serial_before, serial_after = load_result
                     orig_fn = self.fshelper.getBlobFilename(oid, serial_before)
                     new_fn = self.fshelper.getBlobFilename(oid, undo_serial)
+                # Listed before it is written: a copy that fails half way
+                # must be removed by the abort, too.
+                self.dirty_oids.append((oid, undo_serial))
                 with open(orig_fn, "rb") as orig:
                     with open(new_fn, "wb") as new:
                         utils.cp(orig, new)
-                self.dirty_oids.append((oid, undo_serial))
 
         return undo_serial, keys
 
